@@ -25,5 +25,11 @@ meta = {
     "check_result": {"exit": ev["check_rc"], "caught": ev["check_rc"] == 1, "wall_s": ev["check_wall_s"],
                      "violations": ev["check_violations"], "detail": ev["check_detail"], "summary": ev["check_tail"]},
 }
+if len(sys.argv) > 4:
+    meta["history"] = sys.argv[4]
+elif ev.get("first_check_rc") is not None and ev["first_check_rc"] != ev["check_rc"]:
+    meta["history"] = "first evaluation: exit %s (missed); caught after the check was strengthened" % ev["first_check_rc"]
+else:
+    meta["history"] = "caught at the first evaluation; nothing was adapted to this seed"
 json.dump(meta, open(os.path.join(dst, "meta.json"), "w"), indent=1)
 print(sid, "caught" if meta["check_result"]["caught"] else "MISSED")
